@@ -13,12 +13,12 @@ check("C05", "model_checking",
       "DESIGN.md §4 C05")
 
 check("C01", "model_checking",
-      "The conservation law (sum of all account credit and trial credit, read both from the getters and from Stats) is evaluated after every event of every pool-session history up to the depth bound, on the real pool with real signed requests, for both store drivers and 8 price/interval/minimum configurations; every event is additionally run with each single store call failing; concurrent keep-alives/links are explored under a controlled scheduler with scheduling points inside the memory driver's statements and inside badger transaction closures (so optimistic-transaction conflicts really occur) up to a preemption bound.",
+      "The conservation law (sum of all account credit and trial credit, read both from the getters and from Stats) is evaluated after every event of every pool-session history up to the depth bound, on the real pool with real signed requests, for both store drivers and 8 price/interval/minimum configurations; every event is additionally run with each single store call failing; the same histories are also explored from a prepared non-initial session state (hosts and clients connected, peers tracked, shared wallet, part of an interval elapsed); concurrent keep-alives/links/host keep-alives/host reconnects are explored under a controlled scheduler with scheduling points inside the memory driver's statements and inside badger transaction closures (so optimistic-transaction conflicts really occur) up to a preemption bound.",
       "Bounded depth / preemption bound / alphabet as reported; nonce marks excluded from the state key (harness nonces strictly increase); deposits and settlement modelled at the BalanceStore / SettleHandler seams; build-overlay instrumentation trusted (repository suite passes on it).",
       "explicit-state BFS on the real pool with invariant checking + single-fault deviations + preemption-bounded schedule DFS",
       "DESIGN.md §4 C01")
 check("C02", "model_checking",
-      "Bounded-exhaustive: the full product of elapsed x price x interval x peer set x node kind x linkage is run through the real OnUpdate on both drivers and judged by the defining inequality q*I <= elapsed*price < (q+1)*I (big integers, binary search, not the implementation's expression); all 32 ways of slicing one 6-step span into keep-alives x 18 configurations go through the real signed pool (total within one unit per keep-alive per peer of the unsliced charge, client debited exactly the sum); every store call of a billing keep-alive is failed once (all-or-nothing).",
+      "Bounded-exhaustive: the full product of elapsed x price x interval x peer set x node kind x linkage is run through the real OnUpdate on both drivers and judged by the defining inequality q*I <= elapsed*price < (q+1)*I (big integers, binary search, not the implementation's expression); all 32 ways of slicing one 6-step span into keep-alives x 18 configurations go through the real signed pool (total within one unit per keep-alive per peer of the unsliced charge, client debited exactly the sum); every store call of a billing keep-alive is failed once (all-or-nothing); overlapping keep-alives of one client (two at once; one queued behind another request plus a late arrival) are explored under the controlled scheduler against the serial-permutation oracle; a latency decorator lets virtual time pass inside a keep-alive (known finding: that time is billed twice).",
       "Finite alphabets listed in the evidence rule; negative elapsed not explored; all-or-nothing judged on balances.",
       "bounded-exhaustive input/history enumeration on real code vs arithmetic reference + exhaustive single-fault injection",
       "DESIGN.md §4 C02")
@@ -28,7 +28,7 @@ check("C03", "model_checking",
       "bounded-exhaustive configuration enumeration + explicit-state BFS on the real pool",
       "DESIGN.md §4 C03")
 check("C11", "model_checking",
-      "Every history of keep-alives by a node and its peers (all report subsets incl. unknown and duplicate ids, peers checking in, reconnects, gaps of 59s/60s/61s/120s-1ns/120s+1ns) up to depth 4-6 is run on both real drivers and through the real signed vipnode_update; declared-invalid set, active set (NodePeers / ActivePeers) and the set of peers billed are compared with a peer-tracking reference model after every step, plus a model-independent oracle (a reported peer whose own check-in is inside the window is never declared).",
+      "Every history of keep-alives by a node and its peers (all report subsets incl. unknown and duplicate ids, peers checking in, reconnects, gaps of 59s/60s/61s/120s-1ns/120s+1ns) up to depth 4-5 (quick) / 5-6 (thorough) is run on both real drivers and through the real signed vipnode_update; declared-invalid set, active set (NodePeers / ActivePeers) and the set of peers billed are compared with a peer-tracking reference model after every step, plus a model-independent oracle (a reported peer whose own check-in is inside the window is never declared).",
       "Timestamps exactly on the boundary are not judged (branch closed, counted); depth bound.",
       "explicit-state BFS on real code vs reference model",
       "DESIGN.md §4 C11")
@@ -39,18 +39,18 @@ check("C12", "model_checking",
       "DESIGN.md §4 C12")
 
 check("C04", "model_checking",
-      "For each of the seven signed endpoints and three session states a correctly signed base request is generated and then every single-component alteration is applied, exhaustively over a finite grammar: signed for every other method name, identity swapped / other key / case change, nonce +-1, every leaf field of the parameter struct (enumerated by reflection, nested PeerInfo included), every signature byte flipped, every truncation length, garbage and re-encoded signatures. Oracle: altered => VerifyFailedError, no panic and an unchanged digest of the whole pool; unaltered => the verification step accepts (also for lower-case wallet spelling).",
+      "For each of the seven signed endpoints and three session states a correctly signed base request is generated and then every single-component alteration is applied, exhaustively over a finite grammar: signed for every other method name, identity swapped / other key / case change, nonce +-1, every leaf field of the parameter struct (enumerated by reflection, nested PeerInfo included), every signature byte flipped, every truncation length, garbage and re-encoded signatures. Oracle: altered => VerifyFailedError, no panic and an unchanged digest of the whole pool; unaltered => the verification step accepts (also for lower-case wallet spelling). The same is done for vipnode_update signed in the deprecated format (known finding: peers_info is not covered there).",
       "Finite alteration grammar (one component at a time); memory driver; the recovery byte of node-style signatures is not judged.",
       "bounded-exhaustive alteration enumeration on the real endpoints with digest oracle",
       "DESIGN.md §4 C04")
 check("C06", "model_checking",
-      "All session histories up to depth 2 (quick) / 3 (thorough) are generated and de-duplicated into reachable pool states; in each state every endpoint x refusal kind (bad signature, other key, malformed signature, stale nonce, replayed nonce) x existing/fresh identity is executed on the real pool: the digest of nodes, peers, balances, links, stats, registered connections and host call logs must be identical before and after, and the owner's next legitimate request with a nonce below the refused one must still be accepted.",
+      "All session histories up to depth 3 (quick) / 4 (thorough) are generated and de-duplicated into reachable pool states; in each state every endpoint x refusal kind (bad signature, other key, malformed signature, stale nonce, replayed nonce) x existing/fresh identity is executed on the real pool: the digest of nodes, peers, balances, links, stats, registered connections and host call logs must be identical before and after, and the owner's next legitimate request with a nonce below the refused one must still be accepted.",
       "Depth bound; memory driver; digest covers what is observable through getters, NumRemotes and the fake hosts' call logs.",
       "explicit-state enumeration of session states x exhaustive refusal matrix, before/after digest oracle",
       "DESIGN.md §4 C06")
 
 check("C07", "model_checking",
-      "Every history of accrual, deposit, withdrawal (settlement succeeding or failing), forged withdrawal and a second wallet up to depth 4 (quick) / 6 (thorough) for three minimum/fee configurations is executed on the real PaymentService against a payout reference model (settle attempted iff signed and balance >= minimum, amount = deposit+credit-fee, balance cleared after success and untouched after failure/refusal, total paid equals the model); 2-3 racing withdrawals of one wallet are explored under the controlled scheduler with scheduling points at every BalanceStore call, the settlement and every statement of Withdraw.",
+      "Every history of accrual, deposit, withdrawal (settlement succeeding or failing), forged withdrawal and a second wallet up to depth 5 (quick) / 7 (thorough) for three minimum/fee configurations is executed on the real PaymentService against a payout reference model (settle attempted iff signed and balance >= minimum, amount = deposit+credit-fee, balance cleared after success and untouched after failure/refusal, total paid equals the model); 2-3 racing withdrawals of one wallet are explored under the controlled scheduler with scheduling points at every BalanceStore call, the settlement and every statement of Withdraw.",
       "Depth / preemption bounds; settlement and deposits modelled at the SettleHandler / BalanceStore seams; no fault injected between a successful settlement and the ledger update.",
       "explicit-state BFS vs reference model + preemption-bounded schedule DFS + settlement fault sequences",
       "DESIGN.md §4 C07")
@@ -66,7 +66,7 @@ check("C09", "model_checking",
       "explicit-state BFS vs registry model + preemption-bounded schedule DFS",
       "DESIGN.md §4 C09")
 check("C10", "model_checking",
-      "11 scenarios of 2-3 concurrent signed requests (keep-alives of clients sharing a host, duplicate and same-client keep-alives, reconnect, wallet link, withdraw, peer request) per driver are executed under every interleaving within a preemption bound, with scheduling points at every statement of the memory driver, inside badger transaction closures, in the balance manager and the pool service; the outcome (balances, links, peer sets, payouts, accept/reject per call) must equal that of some sequential permutation of the same requests run on the real code (differential oracle, no hand-written expectation). Snapshot immutability: BFS over store operation sequences in which every value ever handed out is deep-copied at hand-out and re-compared after each later operation. A free-running -race pass over the same scenario bodies is attached as supplementary, non-deciding evidence.",
+      "13 scenarios of 2-3 concurrent signed requests (keep-alives of clients sharing a host, duplicate and same-client keep-alives, reconnect, wallet link, withdraw, peer request) per driver are executed under every interleaving within a preemption bound, with scheduling points at every statement of the memory driver, inside badger transaction closures, in the balance manager and the pool service; the outcome (balances, links, peer sets, payouts, accept/reject per call) must equal that of some sequential permutation of the same requests run on the real code (differential oracle, no hand-written expectation). Snapshot immutability: BFS over store operation sequences in which every value ever handed out is deep-copied at hand-out and re-compared after each later operation. A free-running -race pass over the same scenario bodies is attached as supplementary, non-deciding evidence.",
       "Sequential consistency (a data race in the memory-model sense can only be reported, not excluded, by the -race pass); preemption / depth bounds; bookkeeping fields outside the property (BlockNumber, LastSeen) not compared.",
       "preemption-bounded schedule DFS with differential serial oracle + explicit-state BFS (aliasing) + supplementary -race pass",
       "DESIGN.md §4 C10")
@@ -78,7 +78,7 @@ check("C14", "model_checking",
       "DESIGN.md §4 C14")
 
 check("C15", "model_checking",
-      "Bounded-exhaustive message grammars applied to the real Server / Remote / HTTPServer with a live pool world: every production method (pool, payment, status, agent) x arities 0..n+1 x 20 JSON value kinds per position; correctly signed requests carrying hostile node URIs, peer descriptions and counts (incl. 2^31, 2^62, negative) through the real signature check; 22 envelope shapes and 125 reply shapes sent to a waiting Remote.Call under the controlled scheduler (virtual time-outs, execution drained); every prefix and 12 byte substitutions at every position of 6 representative messages through the stream codec, Server.Handle and HTTPServer. Oracle: no panic (also in spawned goroutines), one well-formed reply per request id, vipnode_ping still answered on the same server/connection, waiting callers return, the worker process survives (address-space limit makes unbounded allocations fatal and visible).",
+      "Bounded-exhaustive message grammars applied to the real Server / Remote / HTTPServer with a live pool world: every production method (pool, payment, status, agent) x arities 0..n+1 x 20 JSON value kinds per position; correctly signed requests carrying hostile node URIs, peer descriptions and counts (incl. 2^31, 2^62, negative) through the real signature check; 22 envelope shapes and 125 reply shapes sent to a waiting Remote.Call under the controlled scheduler (virtual time-outs, execution drained); every prefix and 12 byte substitutions at every position of 6 representative messages through the stream codec, Server.Handle and HTTPServer; and ~300 hostile requests against the real pool binary over HTTP and WebSocket with a bystander connection that must keep being served. Oracle: no panic (also in spawned goroutines), one well-formed reply per request id, vipnode_ping still answered on the same server/connection, waiting callers return, the worker process survives (address-space limit makes unbounded allocations fatal and visible).",
       "Finite grammars; malformed byte streams and non-message JSON may cost the sender its own connection (not judged).",
       "bounded-exhaustive input-grammar enumeration on real code (in-process and under the controlled scheduler)",
       "DESIGN.md §4 C15")
@@ -105,13 +105,13 @@ check("C18", "model_checking",
       "bounded-exhaustive round enumeration and multi-round histories on real code vs agent model",
       "DESIGN.md §4 C18")
 check("C20", "model_checking",
-      "The real Agent (Start/Stop/Wait/UpdatePeers/serveUpdates; its ticker, stop/wait channels, mutex and Once run under the controlled scheduler on a virtual clock) is driven through every lifecycle history up to depth 6 (quick) / 8 (thorough) over {start, stop, wait, forced update, one interval elapsing, start against a refusing pool, failing keep-alive}; after every event the number of live keep-alive loops (scheduler thread accounting) must equal the lifecycle model, a second start must be refused without touching the pool, exactly one keep-alive per interval per loop, Wait returns the loop's result and restart works. Concurrent start/start, stop/tick, wait/stop and stop/update are explored within a delay bound. The interval flag is checked on the real binary (vipnode agent --rpc fakenode://... :memory:) for 13 interval strings.",
+      "The real Agent (Start/Stop/Wait/UpdatePeers/serveUpdates; its ticker, stop/wait channels, mutex and Once run under the controlled scheduler on a virtual clock) is driven through every lifecycle history up to depth 6 (quick) / 8 (thorough) over {start, stop, wait, forced update, one interval elapsing, start against a pool refusing the connect, start whose first keep-alive is rejected, failing keep-alive}; after every event the number of live keep-alive loops (scheduler thread accounting) must equal the lifecycle model, a second start must be refused without touching the pool, exactly one keep-alive per interval per loop, Wait returns the loop's result and restart works. Concurrent start/start, stop/start, stop/tick, wait/stop and stop/update are explored within a delay bound, each followed by a probing Start that must agree with the number of live loops. The interval flag is checked on the real binary (vipnode agent --rpc fakenode://... :memory:) for 13 interval strings.",
       "Depth / delay bounds; Stop without a running loop not exercised; the exact lower bound 5s not judged; the CLI probe waits 2.5 s of real time per interval string to decide 'accepted' (process still running or registered).",
       "explicit-state lifecycle search + delay-bounded schedule DFS on the real agent; real binary for the CLI clause",
       "DESIGN.md §4 C20")
 
 check("C13", "fault_enumeration",
-      "A child process opens the on-disk store exactly as pool.go does, runs a history, reports every file's size after each acknowledged operation and is SIGKILLed without Close. For all histories of length 2 and half of those of length 3 (quick) / all of length 2-4 (thorough) over {SetNode, UpdateNodePeers, AddNodeBalance, AddAccountNode (three keys in one transaction), AddAccountBalance, nonce, close+reopen} every crash image 'killed after operation k' and, for the last operation, 'killed while it was being written' (value log cut inside the appended bytes: every byte for a representative subset, else every 16th plus both edges) is materialised, reopened through the real driver and compared getter by getter (plus nonce probes) with a reference model: exactly the acknowledged prefix, resp. the state before or after the interrupted operation and nothing else. Readers racing AddAccountNode / UpdateNodePeers are explored under the controlled scheduler with scheduling points inside the transaction closures; databases of format version 0/1/2 with every subset of key families and 0-2 old nonces are synthesised and opened twice (migration, idempotent reopen).",
+      "A child process opens the on-disk store exactly as pool.go does, runs a history, reports every file's size after each acknowledged operation and is SIGKILLed without Close. For all histories of length 2 and half of those of length 3 (quick) / all of length 2-4 (thorough) over {SetNode, UpdateNodePeers, AddNodeBalance, AddAccountNode (three keys in one transaction), AddAccountBalance, nonce, close+reopen} every crash image 'killed after operation k' and, for the last operation, 'killed while it was being written' (value log cut inside the appended bytes: every byte for a representative subset, else every 16th plus both edges) is materialised, reopened through the real driver and compared getter by getter (plus nonce probes) with a reference model: exactly the acknowledged prefix, resp. the state before or after the interrupted operation and nothing else. Readers racing AddAccountNode / UpdateNodePeers are explored under the controlled scheduler with scheduling points inside the transaction closures; databases of format version 0/1/2 with every subset of key families and 0-2 old nonces are synthesised and opened twice (migration, idempotent reopen); the truncation model itself is validated on every run by really killing children after each prefix of three histories and comparing sizes and contents with the computed images.",
       "SIGKILL semantics (page cache survives); badger appends a commit with one write (validated on every run: the image cut at the final recorded size must equal the full history); recovery side opens with FileIO loading mode and small caches (same format and replay code); torn tails refused by production Open are reopened WithTruncate and counted.",
       "crash-point / torn-write enumeration on the real persistent driver + schedule DFS for readers + exhaustive migration inputs",
       "DESIGN.md §4 C13")
